@@ -4,9 +4,10 @@ property text) to a scratch copy and run the property's check on it.  None may b
 exit 2 = undecided.  Prints one line per diff; exit 0 iff no alarm and no crash."""
 import sys, os, glob, subprocess
 HERE = os.path.dirname(os.path.dirname(os.path.abspath(__file__)))
+CORPUS = os.environ.get("VERIF_CORPUS", "harmless")
 rc = 0
 sel = sys.argv[1:]
-for d in sorted(glob.glob(os.path.join(HERE, "mutants", "harmless", "C*"))):
+for d in sorted(glob.glob(os.path.join(HERE, "mutants", CORPUS, "C*"))):
     if not os.path.isdir(d):
         continue
     pid = os.path.basename(d)
